@@ -123,6 +123,81 @@ theorem stop_cons (k : Nat) (t : Tk) (rest : List Tk) (h : blocks k t = false) :
 theorem stop_nil (k : Nat) : Stop k [] := by
   intro t ht; simp at ht
 
+/-- the rightmost operand chain of `e` ends in a value (what `parse_conjunct` extends with `/` or `+`), not in a
+conditional (which it returns as it is) -/
+def endsValue : Expr → Bool
+  | .cond _ _ _ _ _ => false
+  | .concat _ r => endsValue r
+  | .joinL _ r => endsValue r
+  | .joinR r => endsValue r
+  | .and _ r => endsValue r
+  | .or _ r => endsValue r
+  | .str _ => true
+  | .var _ => true
+  | .backtick _ => true
+  | .call _ _ => true
+  | .assert _ _ _ _ => true
+  | .group _ => true
+
+/-- the tokens that make the level-`k` parser go on after having read `e` -/
+def blocksE (k : Nat) (e : Expr) (t : Tk) : Bool :=
+  (decide (1 ≤ k) && endsValue e && (t == .slash || t == .plus)) || (decide (2 ≤ k) && t == .andand) || (decide (3 ≤ k) && t == .barbar)
+
+/-- what follows does not continue the level-`k` phrase `e` (exact: `/` and `+` only extend a phrase that ends in a value) -/
+def StopE (k : Nat) (e : Expr) (rest : List Tk) : Prop := ∀ t, rest.head? = some t → blocksE k e t = false
+
+theorem blocksE_le_blocks (k : Nat) (e : Expr) (t : Tk) (h : blocks k t = false) : blocksE k e t = false := by
+  match k with
+  | 0 => simp [blocksE]
+  | 1 => simp [blocks] at h; simp [blocksE, h]
+  | 2 => simp [blocks] at h; simp [blocksE, h]
+  | k + 3 => simp [blocks] at h; simp [blocksE, h]
+
+theorem StopE.of_stop {k : Nat} {e : Expr} {rest : List Tk} (h : Stop k rest) : StopE k e rest :=
+  fun t ht => blocksE_le_blocks k e t (h t ht)
+
+theorem stopE_cons (k : Nat) (e : Expr) (t : Tk) (rest : List Tk) (h : blocksE k e t = false) : StopE k e (t :: rest) := by
+  intro t' ht'
+  simp only [List.head?_cons, Option.some.injEq] at ht'
+  subst ht'; exact h
+
+theorem stopE_nil (k : Nat) (e : Expr) : StopE k e [] := by
+  intro t ht; simp at ht
+
+theorem StopE.le {j k : Nat} {e : Expr} {rest : List Tk} (h : StopE k e rest) (hjk : j ≤ k) : StopE j e rest := by
+  intro t ht
+  have := h t ht
+  simp only [blocksE, Bool.or_eq_false_iff, Bool.and_eq_false_iff, decide_eq_false_iff_not] at this ⊢
+  obtain ⟨⟨h1, h2⟩, h3⟩ := this
+  refine ⟨⟨?_, ?_⟩, ?_⟩
+  · rcases h1 with (h1 | h1) | h1
+    · left; left; omega
+    · left; right; exact h1
+    · right; exact h1
+  · rcases h2 with h2 | h2
+    · left; omega
+    · right; exact h2
+  · rcases h3 with h3 | h3
+    · left; omega
+    · right; exact h3
+
+theorem StopE.congr {k : Nat} {e e' : Expr} {rest : List Tk} (h : StopE k e rest) (hev : endsValue e' = endsValue e) : StopE k e' rest := by
+  intro t ht
+  have := h t ht
+  simpa [blocksE, hev] using this
+
+theorem StopE.noSlash {k : Nat} {e : Expr} {rest : List Tk} (h : StopE k e rest) (hk : 1 ≤ k) (hv : endsValue e = true) :
+    (∀ r, rest ≠ Tk.slash :: r) ∧ (∀ r, rest ≠ Tk.plus :: r) := by
+  constructor
+  · intro r hr; have := h .slash (by rw [hr]; rfl); simp [blocksE, hk, hv] at this
+  · intro r hr; have := h .plus (by rw [hr]; rfl); simp [blocksE, hk, hv] at this
+
+theorem StopE.noAnd {k : Nat} {e : Expr} {rest : List Tk} (h : StopE k e rest) (hk : 2 ≤ k) : ∀ r, rest ≠ Tk.andand :: r := by
+  intro r hr; have := h .andand (by rw [hr]; rfl); simp [blocksE, hk] at this
+
+theorem StopE.noOr {k : Nat} {e : Expr} {rest : List Tk} (h : StopE k e rest) (hk : 3 ≤ k) : ∀ r, rest ≠ Tk.barbar :: r := by
+  intro r hr; have := h .barbar (by rw [hr]; rfl); simp [blocksE, hk] at this
+
 /-- parser entry point of level `k` -/
 def parseAt : Nat → Nat → List Tk → Option (Expr × List Tk)
   | 0 => parseValue
@@ -134,7 +209,7 @@ def parseAt : Nat → Nat → List Tk → Option (Expr × List Tk)
 def ValueStart (ts : List Tk) : Prop := ts.head? ≠ some (.ident "if") ∧ ts.head? ≠ some .slash
 
 theorem conjunct_of_value {f : Nat} {ts rest : List Tk} {e : Expr} (hv : parseValue f ts = some (e, rest))
-    (hs : ValueStart ts) (hstop : Stop 1 rest) : parseConjunct (f + 1) ts = some (e, rest) := by
+    (hs : ValueStart ts) (hstop : StopE 1 e rest) (hval : endsValue e = true) : parseConjunct (f + 1) ts = some (e, rest) := by
   unfold parseConjunct
   obtain ⟨h1, h2⟩ := hs
   split
@@ -142,29 +217,30 @@ theorem conjunct_of_value {f : Nat} {ts rest : List Tk} {e : Expr} (hv : parseVa
   · rename_i ts1; simp at h2
   · simp only [hv]
     split
-    · rename_i ts2 _; exact absurd (hstop .slash (by simp)) (by simp [blocks])
-    · rename_i ts2 _; exact absurd (hstop .plus (by simp)) (by simp [blocks])
+    · rename_i ts2 _; exact absurd rfl ((hstop.noSlash (Nat.le_refl _) hval).1 _)
+    · rename_i ts2 _; exact absurd rfl ((hstop.noSlash (Nat.le_refl _) hval).2 _)
     · rfl
 
 theorem disjunct_of_conjunct {f : Nat} {ts rest : List Tk} {e : Expr} (hv : parseConjunct f ts = some (e, rest))
-    (hstop : Stop 2 rest) : parseDisjunct (f + 1) ts = some (e, rest) := by
+    (hstop : StopE 2 e rest) : parseDisjunct (f + 1) ts = some (e, rest) := by
   unfold parseDisjunct
   simp only [hv]
   split
-  · rename_i ts2; exact absurd (hstop .andand (by simp)) (by simp [blocks])
+  · rename_i ts2; exact absurd rfl (hstop.noAnd (Nat.le_refl _) _)
   · rfl
 
 theorem expression_of_disjunct {f : Nat} {ts rest : List Tk} {e : Expr} (hv : parseDisjunct f ts = some (e, rest))
-    (hstop : Stop 3 rest) : parseExpression (f + 1) ts = some (e, rest) := by
+    (hstop : StopE 3 e rest) : parseExpression (f + 1) ts = some (e, rest) := by
   unfold parseExpression
   simp only [hv]
   split
-  · rename_i ts2; exact absurd (hstop .barbar (by simp)) (by simp [blocks])
+  · rename_i ts2; exact absurd rfl (hstop.noOr (Nat.le_refl _) _)
   · rfl
 
 /-- climb from level `j` to level `k` -/
 theorem lift {j : Nat} {f : Nat} {ts rest : List Tk} {e : Expr} (hv : parseAt j f ts = some (e, rest))
-    (hstart : j = 0 → ValueStart ts) (k : Nat) (hjk : j ≤ k) (hk : k ≤ 3) (hstop : Stop k rest) :
+    (hstart : j = 0 → ValueStart ts) (k : Nat) (hjk : j ≤ k) (hk : k ≤ 3) (hstop : StopE k e rest)
+    (hval : j = 0 → endsValue e = true) :
     parseAt k (f + (k - j)) ts = some (e, rest) := by
   induction k with
   | zero =>
@@ -174,13 +250,13 @@ theorem lift {j : Nat} {f : Nat} {ts rest : List Tk} {e : Expr} (hv : parseAt j 
     by_cases hj : j = k + 1
     · subst hj; simpa using hv
     · have hjk' : j ≤ k := by omega
-      have ih' := ih hjk' (by omega) hstop.mono
+      have ih' := ih hjk' (by omega) (hstop.le (by omega))
       have e1 : f + (k + 1 - j) = (f + (k - j)) + 1 := by omega
       rw [e1]
       match k, ih', hstop with
       | 0, ih', hstop =>
         have hj0 : j = 0 := by omega
-        exact conjunct_of_value ih' (hstart hj0) hstop
+        exact conjunct_of_value ih' (hstart hj0) hstop (hval hj0)
       | 1, ih', hstop => exact disjunct_of_conjunct ih' hstop
       | 2, ih', hstop => exact expression_of_disjunct ih' hstop
       | k + 3, _, _ => omega
@@ -263,25 +339,25 @@ theorem printElse_cond (a : Expr) (o : CondOp) (b t x : Expr) :
 
 /-- reach any level `k ≥ L` from the round trip at the expression's own level `L` -/
 theorem climb (e : Expr) (L : Nat)
-    (own : ∀ f rest, 4 * e.size + L ≤ f → Stop L rest → After e rest → parseAt L f (printE e ++ rest) = some (e, rest))
-    (hstart : L = 0 → ∀ rest, ValueStart (printE e ++ rest)) :
-    ∀ k, L ≤ k → k ≤ 3 → ∀ f rest, 4 * e.size + k ≤ f → Stop k rest → After e rest →
+    (own : ∀ f rest, 4 * e.size + L ≤ f → StopE L e rest → After e rest → parseAt L f (printE e ++ rest) = some (e, rest))
+    (hstart : L = 0 → ∀ rest, ValueStart (printE e ++ rest)) (hval : L = 0 → endsValue e = true) :
+    ∀ k, L ≤ k → k ≤ 3 → ∀ f rest, 4 * e.size + k ≤ f → StopE k e rest → After e rest →
       parseAt k f (printE e ++ rest) = some (e, rest) := by
   intro k hLk hk3 f rest hf hstop hafter
   have h0 := own (f - (k - L)) rest (by omega) (hstop.le hLk) hafter
-  have := lift h0 (fun h => hstart h rest) k hLk hk3 hstop
+  have := lift h0 (fun h => hstart h rest) k hLk hk3 hstop hval
   rwa [show f - (k - L) + (k - L) = f by omega] at this
 
 /-- `parse_condition` on a printed condition, from the round trips of its two sides -/
 theorem condition_rt (a b : Expr) (o : CondOp)
-    (ha : ∀ f rest, 4 * a.size + 3 ≤ f → Stop 3 rest → After a rest → parseExpression f (printE a ++ rest) = some (a, rest))
-    (hb : ∀ f rest, 4 * b.size + 3 ≤ f → Stop 3 rest → After b rest → parseExpression f (printE b ++ rest) = some (b, rest))
-    (g : Nat) (rest : List Tk) (hga : 4 * a.size + 4 ≤ g) (hgb : 4 * b.size + 4 ≤ g) (hstop : Stop 3 rest)
+    (ha : ∀ f rest, 4 * a.size + 3 ≤ f → StopE 3 a rest → After a rest → parseExpression f (printE a ++ rest) = some (a, rest))
+    (hb : ∀ f rest, 4 * b.size + 3 ≤ f → StopE 3 b rest → After b rest → parseExpression f (printE b ++ rest) = some (b, rest))
+    (g : Nat) (rest : List Tk) (hga : 4 * a.size + 4 ≤ g) (hgb : 4 * b.size + 4 ≤ g) (hstop : StopE 3 b rest)
     (hafter : After b rest) :
     parseCondition g (printE a ++ .op o :: (printE b ++ rest)) = some ((a, o, b), rest) := by
   obtain ⟨g', rfl⟩ : ∃ g', g = g' + 1 := ⟨g - 1, by omega⟩
   unfold parseCondition
-  rw [ha g' _ (by omega) (stop_cons 3 _ _ (by simp [blocks])) (after_cons _ _ _ (by simp) (by simp))]
+  rw [ha g' _ (by omega) (stopE_cons 3 _ _ _ (by simp [blocksE])) (after_cons _ _ _ (by simp) (by simp))]
   simp only
   rw [hb g' _ (by omega) hstop hafter]
 
